@@ -237,7 +237,7 @@ func vRunCase(t *testing.T, c vCase) (msg string) {
 	return ""
 }
 
-func itoa(i int) string  { return big.NewInt(int64(i)).String() }
+func itoa(i int) string    { return big.NewInt(int64(i)).String() }
 func utoa(u uint64) string { return new(big.Int).SetUint64(u).String() }
 func toString(r interface{}) string {
 	switch v := r.(type) {
